@@ -9,9 +9,9 @@
 (*    (great-circle lattice x eps, lon 0 and 360, both poles at several longitudes, *)
 (*    the documented poles / nodes / SDSS centre and their eps-neighbourhoods, the  *)
 (*    rational sphere) is a valid input of its frame; the points are exported;      *)
-(*  - PickGC1 / PickGC2 and PickRS1 / PickRS2 enumerate the pairs whose exact       *)
-(*    separation the isometry clause is judged against; IsoTheorems: the expected   *)
-(*    value is symmetric and unchanged by the longitude representation;             *)
+(*  - PickGC1 and PickRS1 enumerate the rows of pairs whose exact separation the     *)
+(*    isometry clause is judged against; IsoTheorems: the expected value is         *)
+(*    symmetric and unchanged by the longitude representation;                      *)
 (*  - PickShift enumerates (longitude, shift, mode) on two dyadic lattices;         *)
 (*    ShiftTheorems checks the specification against the statement (stated          *)
 (*    interval, result = input - shift mod 360, uniqueness) and ShiftRefines that   *)
@@ -93,11 +93,10 @@ FrameOf(n) == CASE n = 1 -> "eq" [] n = 2 -> "gal" [] n = 3 -> "ec" [] n = 4 -> 
 PickFrame == kind = "start" /\ kind' = "frame" /\ UNCHANGED <<path, y, z>> /\ x' \in 1..5
 
 \* ---- isometry pairs -----------------------------------------------------------------------------
+\* (one state per first point; the theorems quantify over the second point of the row.  TLC does not cache
+\* G and S, so each evaluation binds them once with LET)
 PickGC1 == kind = "start" /\ kind' = "gc1" /\ x' \in 1..NG /\ UNCHANGED <<path, y, z>>
-PickGC2 == kind = "gc1" /\ kind' = "gc2" /\ UNCHANGED <<path, x, z>>
-           /\ y' \in {k \in x..NG : GDefined(G[x], G[k])}
 PickRS1 == kind = "start" /\ kind' = "rs1" /\ x' \in 1..NS /\ UNCHANGED <<path, y, z>>
-PickRS2 == kind = "rs1" /\ kind' = "rs2" /\ UNCHANGED <<path, x, z>> /\ y' \in x..NS
 
 \* ---- shifts: z = 1: unit 1/8 degree, z = 2: unit 2^-20 degree; y = 2*|s| + (1 if negative) --------
 Unit(u)  == IF u = 1 THEN 8 ELSE 1048576
@@ -124,7 +123,7 @@ AnchorSeq(s) == SetToSortSeq(Anchors(s), ALess)
 PickAnchor == kind = "start" /\ kind' = "anchor" /\ UNCHANGED <<path, z>>
               /\ x' \in 1..6 /\ y' \in 1..Cardinality(Anchors(x'))
 
-Next == Start \/ Step \/ PickFrame \/ PickGC1 \/ PickGC2 \/ PickRS1 \/ PickRS2 \/ PickShift \/ PickCube \/ PickAnchor
+Next == Start \/ Step \/ PickFrame \/ PickGC1 \/ PickRS1 \/ PickShift \/ PickCube \/ PickAnchor
 NextExport == Start \/ Step \/ PickFrame \/ PickGC1 \/ PickRS1 \/ PickCube \/ PickAnchor
 Spec == Init /\ [][Next]_vars
 
@@ -152,14 +151,18 @@ PointTheorems == kind = "frame" =>
 
 Wraps == {-1, 0, 1}
 IsoTheorems ==
-    /\ kind = "gc2" =>
-          LET p == G[x]  q == G[y] IN
-          /\ GThmRange(p, q) /\ GThmSymmetric(p, q) /\ GThmZeroIffSame(p, q)
-          /\ \A k1, k2 \in Wraps : GThmWrap(p, q, k1, k2)
-    /\ kind = "rs2" =>
-          LET u == S[x]  v == S[y] IN
-          /\ SIsUnit(u) /\ SIsUnit(v) /\ SThmSymmetric(u, v) /\ SThmRange(u, v) /\ SThmOneIffSame(u, v)
-          /\ SThmIsometry(u, v)
+    /\ kind = "gc1" =>
+          LET GG == G  p == GG[x] IN
+          \A k \in x..Len(GG) : GDefined(p, GG[k]) =>
+             LET q == GG[k] IN
+             /\ GThmRange(p, q) /\ GThmSymmetric(p, q) /\ GThmZeroIffSame(p, q)
+             /\ \A k1, k2 \in Wraps : GThmWrap(p, q, k1, k2)
+    /\ kind = "rs1" =>
+          LET SS == S  u == SS[x] IN
+          \A k \in x..Len(SS) :
+             LET v == SS[k] IN
+             /\ SIsUnit(u) /\ SIsUnit(v) /\ SThmSymmetric(u, v) /\ SThmRange(u, v) /\ SThmOneIffSame(u, v)
+             /\ SThmIsometry(u, v)
 
 ShiftTheorems == kind = "shift" =>
     LET lon == x  s == ShiftOf(y)  F == FullOf(z) IN
@@ -199,9 +202,10 @@ AnchorTheorems == kind = "anchor" =>
 \* ---- export ----------------------------------------------------------------------------------------
 SelInfo(s) == [sel |-> s, name |-> SelName(s), src |-> SelSrc(s), dst |-> SelDst(s), euler |-> IsEuler(s),
                isotol9 |-> IsoTol9(s), lonrange |-> IF HasLonRange(s) THEN <<LonLo(s), LonHi(s)>> ELSE <<>>]
-GCRow(a) == LET js == SelectSeq([k \in 1..(NG - a + 1) |-> a + k - 1], LAMBDA b : GDefined(G[a], G[b]))
-            IN [i |-> a, js |-> js, seps |-> [k \in 1..Len(js) |-> SepGC(G[a], G[js[k]])]]
-RSRow(a) == [i |-> a, dots |-> [k \in 1..(NS - a + 1) |-> SDot(S[a], S[a + k - 1])]]
+GCRow(a) == LET GG == G
+                js == SelectSeq([k \in 1..(Len(GG) - a + 1) |-> a + k - 1], LAMBDA b : GDefined(GG[a], GG[b]))
+            IN [i |-> a, js |-> js, seps |-> [k \in 1..Len(js) |-> SepGC(GG[a], GG[js[k]])]]
+RSRow(a) == LET SS == S IN [i |-> a, dots |-> [k \in 1..(Len(SS) - a + 1) |-> SDot(SS[a], SS[a + k - 1])]]
 ShiftRow(u, lon) == LET ss == SetToSortSeq(UNION {{a, -a} : a \in ShiftsOf(u)}, LAMBDA a, b : a < b)
                     IN [u |-> Unit(u), lon |-> lon, s |-> ss,
                         want |-> [k \in DOMAIN ss |-> ShiftSpec(lon, ss[k], FullOf(u))], wrap |-> WrapSpec(lon, FullOf(u))]
